@@ -121,3 +121,50 @@ func verifNativeSeries(ls *labeledSeries, rs []*vegeta.Result) {
 		}
 	}
 }
+
+// C17 (LS2) — a large backlog: results 2..B+1 arrive first and are buffered,
+// then result 0 (which releases only itself, result 1 is still missing), then
+// — after a choice of 0..2 further late arrivals — result 1, which releases
+// everything. Every result ends up in its series exactly once and in sequence
+// order, nothing stays buffered. B = 300 / 1500 buffered results (concrete
+// values: the size of the backlog is what matters here).
+//
+//verif:harness unwind=64 replay=none
+func verif_harness_C17_labeled_series_backlog() {
+	if !verif_is_symbolic_run() {
+		return
+	}
+	B := 300
+	if verif_thorough() {
+		B = 1500
+	}
+	var pushed []uint64
+	verif_stub("github.com/tsenart/go-tsz.New", func(t0 uint64) *tsz.Series { return &tsz.Series{} })
+	verif_stub("(*github.com/tsenart/go-tsz.Series).Push", func(s *tsz.Series, t uint64, v float64) {
+		pushed = append(pushed, t)
+	})
+	base := time.Unix(1700000000, 0)
+	mk := func(seq int) *vegeta.Result {
+		return &vegeta.Result{Attack: "a", Seq: uint64(seq), Timestamp: base.Add(time.Duration(seq) * time.Millisecond), Latency: time.Millisecond}
+	}
+	ls := newLabeledSeries(ErrorLabeler)
+	late := verif_choose("late_arrivals_before_the_missing_one", 3)
+	total := B + 2 + late
+	for s := 2; s < B+2; s++ {
+		verif_assert(ls.add(mk(s)) == nil, "C17.ls.no-error")
+	}
+	verif_assert(ls.add(mk(0)) == nil, "C17.ls.no-error")
+	for s := B + 2; s < total; s++ {
+		verif_assert(ls.add(mk(s)) == nil, "C17.ls.no-error")
+	}
+	verif_assert(ls.add(mk(1)) == nil, "C17.ls.no-error")
+	verif_assert(len(ls.buf) == 0, "C17.ls.nothing-left-buffered")
+	verif_assert(len(pushed) == total, "C17.ls.one-point-per-result")
+	ordered := true
+	for k := range pushed {
+		if pushed[k] != uint64(k) {
+			ordered = false
+		}
+	}
+	verif_assert(ordered, "C17.ls.points-in-sequence-order")
+}
